@@ -169,7 +169,9 @@ func VerifC11_Containers() {
 	mk := func(in *thrift.TypeDescriptor) *thrift.TypeDescriptor {
 		return thrift.VerifStruct("C", thrift.Options{},
 			thrift.VField{ID: 1, Name: "l", Type: thrift.VerifList(in), Req: 2},
-			thrift.VField{ID: 2, Name: "m", Type: thrift.VerifMap(thrift.VerifBasic(thrift.STRING), in), Req: 2})
+			thrift.VField{ID: 2, Name: "m", Type: thrift.VerifMap(thrift.VerifBasic(thrift.STRING), in), Req: 2},
+			// a map whose KEY is the struct that is cut, with a value type shared by both descriptors
+			thrift.VField{ID: 3, Name: "km", Type: thrift.VerifMap(in, thrift.VerifBasic(thrift.I64)), Req: 2})
 	}
 	src, dst := mk(srcInner), mk(dstInner)
 	var full, proj []byte
@@ -185,6 +187,16 @@ func VerifC11_Containers() {
 		full = vrt.PutString(full, k)
 		proj = vrt.PutString(proj, k)
 		full, proj = verifInnerValue(full, proj, imask)
+	}
+	if vrt.Param("KEYMAP") != 0 {
+		full = vrt.PutMapHdr(vrt.PutField(full, vrt.TMAP, 3), vrt.TSTRUCT, vrt.TI64, cnt)
+		proj = vrt.PutMapHdr(vrt.PutField(proj, vrt.TMAP, 3), vrt.TSTRUCT, vrt.TI64, cnt)
+		for i := 0; i < cnt; i++ {
+			full, proj = verifInnerValue(full, proj, imask)
+			v := int64(vrt.U64())
+			full = vrt.PutBE64(full, v)
+			proj = vrt.PutBE64(proj, v)
+		}
 	}
 	full = append(full, 0)
 	proj = append(proj, 0)
